@@ -3,7 +3,7 @@ CONSTANTS
   Decors = {"none", "ts_readonly", "type_override", "ts_date"}
   Layouts = {"two", "then_word", "word_first", "subject_last", "word_last_only", "between_words"}
   EnumFieldRules = {"none", "camelCase", "SCREAMING-KEBAB-CASE"}
-  Idents = {"a", "foo_bar", "foo_bar2", "r#type", "r#match", "class", "default", "x_", "_lead", "http_url_v2", "user_id", "id", "ID", "URL", "API_KEY", "userName", "HTTPServer2"}
+  Idents = {"caf<e>_max", "a", "foo_bar", "foo_bar2", "r#type", "r#match", "class", "default", "x_", "_lead", "http_url_v2", "user_id", "id", "ID", "URL", "API_KEY", "userName", "HTTPServer2"}
   Renames = {"$ref", "none", "other", "parentId", "fooBar", "foo-bar", "Foo_Bar-2", "class", "_x"}
   RuleSet = {"none", "lowercase", "UPPERCASE", "PascalCase", "camelCase", "snake_case", "SCREAMING_SNAKE_CASE", "kebab-case", "SCREAMING-KEBAB-CASE"}
   Spellings = {"after_list", "merged", "split", "reversed", "extra"}
